@@ -71,6 +71,12 @@ func langProbes(g *rng.R, tag string) []string {
 func c12Case(r *evid.Run, tier string, idx int, g *rng.R) {
 	o := adoc.GenOpts{MinNodes: 5, MaxNodes: 35, NS: 1 + g.Intn(2), Misc: true, Weird: g.P(30), Lang: true, NoXMLNS: g.P(20)}
 	d := adoc.Generate(g, o)
+	if idx%150 == 17 {
+		// a chain deeper than the usual limits of walks towards the root
+		adoc.Deepen(g, d, rng.Pick(g, []int{64, 130, 254, 255, 256, 257, 300}))
+		d.Finish()
+		r.Count("cases_with_a_deep_chain", 1)
+	}
 	w, err := newWorld(d)
 	if err == nil && idx%4 == 3 {
 		// every fourth case runs the evaluator on the independent Cursor implementation (R-ref)
